@@ -32,6 +32,11 @@ partial def runSeq (h : Coll) (toks : List String) (acc : List String) : List St
       | .ok h' => runSeq h' rest (acc ++ ["ok"])
       | .error e => fin (renderErr e))
     | _, _ => fin "bad-op"
+  | "F" :: k :: v :: rest => match bytesOfHex k, bytesOfHex v with
+    | some k, some v => (match setdefault registry h k v with
+      | .ok (r, h') => runSeq h' rest (acc ++ [renderOpt (some r)])
+      | .error e => fin (renderErr e))
+    | _, _ => fin "bad-op"
   | "G" :: k :: rest => match bytesOfHex k with
     | some k => (match getbytes registry h k with
       | .ok r => runSeq h rest (acc ++ [renderOpt r])
